@@ -44,8 +44,10 @@ def run_fonts(report, n, rng):
     from harness.ot_schema import SCHEMA
 
     seen = set()
-    for variant in (None, 0, 1):
-        base = fontgen.add_manual_context_lookups(fontgen.build_layout_font(with_colr=variant))
+    # glyf fonts with every colour variant; the charstring flavours (F19) with COLRv1, which is
+    # what nanoemoji's own cff_colr_1 / cff2_colr_1 output looks like
+    for variant, outlines in ((None, "glyf"), (0, "glyf"), (1, "glyf"), (1, "cff"), (1, "cff2"), (None, "cff")):
+        base = fontgen.add_manual_context_lookups(fontgen.build_layout_font(with_colr=variant, outlines=outlines))
         before_layout = otcanon.layout_canon(base, seen)
         before_other = otcanon.other_tables_canon(base)
         order = base.getGlyphOrder()
@@ -66,30 +68,31 @@ def run_fonts(report, n, rng):
             new_order = [order[0]] + rest
             reorder_glyphs(font, new_order)
             after = fontgen.roundtrip(font)
-            report.count(("font", variant, tuple(new_order)), new_order != order)
+            report.count(("font", variant, outlines, tuple(new_order)), new_order != order)
             report.hist("permutation", kind)
-            case = dict(function="reorder_glyphs.reorder_glyphs + save + reload", colr=variant, new_order=new_order)
+            report.hist("outlines", outlines)
+            case = dict(function="reorder_glyphs.reorder_glyphs + save + reload", colr=variant, outlines=outlines, new_order=new_order)
             if after.getGlyphOrder() != new_order:
-                report_failure(report, f"order_{variant}_{i}", dict(kind="property", case=case, note="saved glyph order differs from the requested one"))
+                report_failure(report, f"order_{variant}_{outlines}_{i}", dict(kind="property", case=case, note="saved glyph order differs from the requested one"))
                 return
             al = otcanon.layout_canon(after)
             for tag in before_layout:
                 if al.get(tag) != before_layout[tag]:
                     case["table"] = tag
                     case["first_difference"] = _first_diff(before_layout[tag], al.get(tag))
-                    report_failure(report, f"layout_{variant}_{i}", dict(kind="property", case=case, note="name-keyed meaning of the layout table changed"))
+                    report_failure(report, f"layout_{variant}_{outlines}_{i}", dict(kind="property", case=case, note="name-keyed meaning of the layout table changed"))
                     return
             ao = otcanon.other_tables_canon(after)
             for k in before_other:
                 if ao.get(k) != before_other[k]:
                     case["table"] = k
                     case["first_difference"] = _first_diff(before_other[k], ao.get(k))
-                    report_failure(report, f"table_{variant}_{i}", dict(kind="property", case=case, note="name-keyed content changed"))
+                    report_failure(report, f"table_{variant}_{outlines}_{i}", dict(kind="property", case=case, note="name-keyed content changed"))
                     return
             bad = otcanon.coverage_violations(after)
             if bad:
                 case["coverage"] = [(p, g) for p, g, _ in bad[:3]]
-                report_failure(report, f"coverage_{variant}_{i}", dict(kind="property", case=case, note="coverage not in increasing glyph-id order in the saved binary"))
+                report_failure(report, f"coverage_{variant}_{outlines}_{i}", dict(kind="property", case=case, note="coverage not in increasing glyph-id order in the saved binary"))
                 return
     missing = sorted(set(SCHEMA) - seen, key=str)
     report.notes["schema_entries_exercised"] = len(set(SCHEMA) & seen)
